@@ -584,7 +584,9 @@ def main():
                 ck.violations = []
                 ck.violation(ck.broken_proof, False)
     for k in known_findings_for(a.arg):
-        print("KNOWN-FINDING: property=%s %s" % (a.arg, k.get("what", "")), flush=True)
+        # printed only while the check still observes the listed failure
+        if k.get("witness") in getattr(ck, "known_observed", set()):
+            print("KNOWN-FINDING: property=%s %s" % (a.arg, k.get("what", "")), flush=True)
     return ck.finish(level=getattr(fn, "level", "proof"))
 
 
